@@ -254,6 +254,10 @@ type slot struct {
 	hijack    bool
 	writeErr  int
 	hijackRan int
+	// keepCopy: the dirty handler keeps ctx.Copy() (documented as safe to use outside the
+	// request's scope); the copy is written to while the probe is being served
+	keepCopy bool
+	copies   []*app.RequestContext
 }
 
 type harness struct {
@@ -295,6 +299,9 @@ func newHarnessMode(stream bool) *harness {
 			if s.hijack {
 				ctx.Hijack(func(c network.Conn) { s.hijackRan++ })
 			}
+			if s.keepCopy {
+				s.copies = append(s.copies, ctx.Copy())
+			}
 			if s.panicEnd {
 				panic("dirty handler panics (recovery middleware must catch it)")
 			}
@@ -306,6 +313,22 @@ func newHarnessMode(stream bool) *harness {
 			h.mu.Unlock()
 			if s != nil {
 				s.probePtr = reflect.ValueOf(ctx).Pointer()
+				// a goroutine that was handed a copy of the earlier request goes on using it
+				// (every probe, also the fresh reference:) the lazily parsed parts exist before
+				// any retained copy is touched
+				ctx.QueryArgs().Len()
+				ctx.PostArgs().Len()
+				ctx.Request.Header.Cookie("pc")
+				for _, cp := range s.copies {
+					cp.Request.Header.Set("X-Dirty", "!!!!")
+					cp.Request.Header.Set("X-Conn", "!!!!")
+					cp.Request.Header.Set("Cookie", "dc=!!")
+					cp.Request.Header.SetCookie("dc", "!")
+					cp.Request.URI().QueryArgs().Set("dq", "!")
+					cp.Request.URI().QueryArgs().Set("flag", "!!!!!!")
+					cp.Request.PostArgs().Set("pf", "!!!!!!")
+					cp.Response.Header.Set("X-Resp", "!!!!")
+				}
 				d, _ := dump(ctx)
 				s.dump = probeIDRe.ReplaceAllString(d, "X-Probe=ID")
 			}
@@ -444,6 +467,10 @@ func work(w *mon.W) {
 		s.panicEnd = r.Chance(8)
 		pv, dv := r.Intn(nProbeVariants), r.Intn(3)
 		s.writeErr = -1
+		s.keepCopy = r.Chance(4)
+		if s.keepCopy {
+			w.Count("dirty_requests_whose_copy_is_kept_and_written_later", 1)
+		}
 		if r.Chance(6) {
 			s.hijack = true
 			if r.Bool() {
